@@ -569,7 +569,11 @@ func (r *runningStep) Close() error {
 	r.cancel()
 	r.wg.Wait()
 	r.logger.Debugf("Closing inputData channel in foreach step provider")
+	// ProvideStageInput checks the closed flag and sends while it holds the lock; closing the channel
+	// under the same lock keeps a send that passed the check just before Close from hitting a closed channel.
+	r.lock.Lock()
 	close(r.executeInput)
+	r.lock.Unlock()
 	return nil
 }
 
